@@ -117,7 +117,7 @@ class Vector(Base):
     @property
     def norm(self):
         if (self.y is None) and (self.z is None):
-            return self.x
+            return Array(values=np.abs(self.x.values), unit=self.x.unit, name=self.name)
         out = self.x.values * self.x.values
         out += self.y.values * self.y.values
         if self.z is not None:
